@@ -317,6 +317,7 @@ def message_line(draw) -> bytes:
 JUNK = [
     b"not json", b"{", b'{"jsonrpc":"2.0","id":1,"method":"x"', b"5", b'"str"', b"null", b"true", b"", b"   ", b"[]", b"[1,2]",
     b'{"jsonrpc":"2.0","id":1}', b'{"jsonrpc":"2.0","id":1,"result":{},"error":{"code":1,"message":"x"}}', b'{"jsonrpc":"2.0","method":5}',
+    b"[", b"[1,", b'{"a":', b'{"jsonrpc":"2.0","method":"notifications/message","params":', b'{"jsonrpc":"2.0","id":3,"result":{"items":[',
     "{\"jsonrpc\":\"2.0\",\"method\":\"é".encode(), b"\xff\xfe", b'{"jsonrpc":"2.0","method":"x","params":{"a":"\xc3"}}', b"}{", b"\xe2\x80\xa8",
 ]
 LENIENT_JUNK = [b"{}", b'{"foo":1}', b'{"jsonrpc":"1.0","id":1,"method":"x"}', b'{"id":1,"method":"x"}', b'{"jsonrpc":"2.0","id":1,"error":{"code":"x","message":"m"}}']
@@ -330,6 +331,12 @@ def streams(draw, max_lines: int = 8, lenient: bool = True) -> bytes:
         r = draw(st.integers(0, 9))
         if r <= 5:
             line = draw(message_line())
+        elif r == 6:
+            # a message cut short at an arbitrary byte (a child that died or was interrupted mid-write)
+            whole = draw(message_line())
+            line = whole[: draw(st.integers(1, max(1, len(whole) - 1)))]
+            if b"\n" in line or b"\r" in line:
+                line = draw(st.sampled_from(JUNK))
         elif r <= 8 or not lenient:
             line = draw(st.sampled_from(JUNK))
         else:
